@@ -17,6 +17,7 @@ CONSTANTS
   SyncStarts = {0}
   SyncEnds = {0}
   CapZeroUnbounded = FALSE
+  LastUncapped = FALSE
 VIEW View
 INVARIANTS TypeOK C10_PhysBound
 PROPERTIES C10_ReadWindow C10_Monotone C10_TrimCovered
